@@ -57,7 +57,15 @@ def make_sequence(rng, mesh, mode, length, well, alpha_scales):
                     kw['kernel'] = rng.choice(['exp', 'gauss'])
                     kw['alpha'] = alpha_scales[kw['kernel']] * rng.choice([0.5, 1.0])
             elif mv == 'alpha':
-                kw['alpha'] = kw['alpha'] * rng.choice([0.25, 4.0, 8.0])
+                # stay within [1/8, 8] x the mesh-adapted scale (beyond that the
+                # weights underflow and the moment matrix becomes singular)
+                base = alpha_scales[kw['kernel']]
+                f = kw['alpha'] / base * rng.choice([0.25, 4.0, 8.0])
+                if not (0.124 <= f <= 8.01):
+                    f = rng.choice([0.125, 0.5, 2.0, 8.0])
+                if abs(f * base - kw['alpha']) < 1e-12 * kw['alpha']:
+                    f = f / 2
+                kw['alpha'] = f * base
             elif mv == 'revisit' and seen:
                 kw = dict(rng.choice(seen))
             if kw['moment_matrix'] and not well[kw['n_hop']]:
@@ -98,10 +106,10 @@ def check_step(st, out, ref, P, well_step, rows_from_coo, fr_hex):
     out = implementation output of the step (same object);
     ref = matrices of a FRESH object built with the same options"""
     n = len(P)
+    if 'error' in ref:
+        return []            # a fresh object raises as well: nothing to compare (the main stream reports)
     if 'error' in out:
         return [('raised-history', {'error': out['error']})]
-    if 'error' in ref:
-        return []            # the fresh object raises as well: nothing to compare (main stream reports)
     rows3 = [rows_from_coo(A, n) for A in ref['matrices']]
     bad = []
     if st['kind'] == 'matrices':
